@@ -604,7 +604,9 @@ fn cmd_allocfault(kv: &BTreeMap<String, String>) -> i32 {
     print!("{}", out.log);
     println!("ALLOCFAULT fired={} recovered={} double_frees={}", out.stats.alloc_fault_fired, out.stats.alloc_fault_recovered, out.stats.double_frees);
     if let Some(v) = out.violation {
-        let memory = v.oracle.starts_with("O4");
+        // C03's share of this engine: memory errors (double free, a byte written at or beyond cap, the runtime's own
+        // `needed_len <= cap` debug assertion firing, which is an out-of-bounds write in a release build)
+        let memory = v.oracle.starts_with("O4") || v.oracle.starts_with("I4") || (v.oracle == "PANIC" && v.detail.contains("cap"));
         if (prop == "C03") == memory {
             println!("-----BEGIN REPLAY-----\n{}# property {}\n# oracle {}\n-----END REPLAY-----", t.to_text(), prop, v.oracle);
             println!("VIOLATION property={} replay=- oracle={} engine=write-sim-allocfault seed={} run={} step={} detail={}", prop, v.oracle, seed, run, v.step, json_str(&v.detail));
